@@ -154,10 +154,10 @@ func NewSchema(config SchemaConfig) (Schema, error) {
 //Add Implementations at Runtime..
 func (gq *Schema) AddImplementation() error {
 
-	// Keep track of all implementations by interface name.
-	if gq.implementations == nil {
-		gq.implementations = map[string][]*Object{}
-	}
+	// Keep track of all implementations by interface name. The table is rebuilt
+	// from the whole type map, so it starts empty (appending to the existing
+	// lists listed every earlier implementer again).
+	gq.implementations = map[string][]*Object{}
 	for _, typeName := range sortedTypeNames(gq.typeMap) {
 		ttype := gq.typeMap[typeName]
 		if ttype, ok := ttype.(*Object); ok {
